@@ -221,6 +221,7 @@ pub fn fail(fam: &'static str, class: &str, desc: &str, detail: String) -> Failu
         width: 0,
         wmax: 0,
         nwidths: 1,
+        widths: vec![0],
         range: None,
         detail,
         output: String::new(),
